@@ -15,6 +15,7 @@ Record case := {
   c_cancel_followup : option nat;    (* follow-up completions received before the context was cancelled *)
   c_universe : list id;              (* C02: all peers of an honest network ([] otherwise) *)
   c_full : bool;                     (* C02: every peer knows the whole network *)
+  c_slow : list id;                  (* peers that have to be dialled first: the dial is a step of its own (released by the driver, succeeds) *)
   (* ---- observed on the real code ---- *)
   i_panic : bool;                    (* recovered panic / deadlock *)
   i_peers : list id; i_states : list pstate; i_closest : list id; i_completed : bool;
@@ -22,7 +23,8 @@ Record case := {
   i_requests : list id;              (* every request or dial the fake network saw *)
   (* the same lookup through the public GetClosestPeers on a fresh node (C02):
      returned peers, did it return an error, did the bucket refresh stamp move *)
-  i_pub : option (list id * bool * option bool * bool) }.
+  i_pub : option (list id * bool * option bool * bool);
+  i_attempts : list id }.             (* every contact attempt: like i_requests, but a peer that is dialled first counts once per dial (also when the dial is aborted before the request is sent) *)
 
 Definition env_of (l : list (id * outcome)) (p : id) : outcome :=
   match find (fun x => N.eqb (fst x) p) l with
@@ -138,6 +140,16 @@ Definition strip_cancel_term (l : list levent) : list levent :=
   | _ => l
   end.
 
+(* the requests the network saw.  The model counts a request when it is spawned; a peer that
+   has to be dialled first gets the request only after its dial, which a termination or a
+   cancellation in between aborts: for these peers the network may have seen fewer requests
+   than were spawned, for all others exactly the same ones. *)
+Definition countN (p : N) (l : list N) : nat := length (filter (N.eqb p) l).
+Definition requests_agree (slow mreq ireq : list N) : bool :=
+  let fast l := filter (fun p => negb (memN p slow)) l in
+  list_eqb N.eqb (sort_N (fast mreq)) (sort_N (fast ireq))
+  && forallb (fun p => Nat.leb (countN p ireq) (countN p mreq)) (filter (fun p => memN p slow) ireq).
+
 Definition agrees (c : case) : bool :=
   let m := model_obs c in
   m_ok m && negb (i_panic c)
@@ -146,7 +158,7 @@ Definition agrees (c : case) : bool :=
   && list_eqb N.eqb (r_closest (m_res m)) (i_closest c)
   && Bool.eqb (r_completed (m_res m)) (i_completed c)
   && list_eqb levent_eqb (strip_cancel_term (m_events m)) (strip_cancel_term (i_events c))
-  && list_eqb N.eqb (sort_N (m_requests m)) (sort_N (i_requests c)).
+  && requests_agree (c_slow c) (m_requests m) (i_requests c).
 
 (* ---- the property, evaluated on what the implementation did ------------------------- *)
 Definition term_count (evs : list levent) : nat :=
@@ -195,7 +207,7 @@ Definition c01_event_ok (c : case) (e : levent) : bool :=
   end.
 Definition c01_events_ok (c : case) : bool :=
   forallb (c01_event_ok c) (i_events c)
-  && match msub (req_peers (i_events c)) (i_requests c) with
+  && match msub (req_peers (i_events c)) (i_attempts c) with
      | Some rest => forallb (fun p => memN p (i_peers c)) rest     (* the remainder are follow-up requests *)
      | None => false
      end
